@@ -680,11 +680,34 @@ func c11BufOneP(c *fw.Ctx, cs c11BufCase, prop string) {
 			return
 		}
 	}
+	var nc net.Conn
+	if prop == "C18" && len(st.Expect) > 0 {
+		// the byte stream of the adapter: the payloads of the messages, in order
+		t := websocket.MessageText
+		if st.Expect[0].Binary {
+			t = websocket.MessageBinary
+		}
+		nc = websocket.NetConn(ctx, conn, t)
+	}
 	for i, want := range st.Expect {
 		var typ websocket.MessageType
 		var got []byte
 		var rerr error
+		if nc != nil && want.Binary != st.Expect[0].Binary {
+			break // a message of the other type ends the adapter's stream (1003): not this part's subject
+		}
 		p := fw.Recover(func() {
+			if nc != nil {
+				typ = websocket.MessageText
+				if want.Binary {
+					typ = websocket.MessageBinary
+				}
+				got = make([]byte, len(want.Payload))
+				if len(got) > 0 {
+					_, rerr = io.ReadFull(nc, got)
+				}
+				return
+			}
 			if prop == "C19" {
 				var v interface{}
 				typ = websocket.MessageText
@@ -713,6 +736,10 @@ func c11BufOneP(c *fw.Ctx, cs c11BufCase, prop string) {
 			return
 		}
 		c.AddTransitions(1)
+	}
+	if nc != nil {
+		c.OutcomeStr(fmt.Sprintf("buffered %s k=%d delivered through NetConn", cs.Stream, cs.K))
+		return
 	}
 	if st.CloseCode > 0 {
 		// the peer's Close frame is reported and echoed, wherever its bytes were when Accept ran
@@ -806,7 +833,7 @@ func init() {
 			c11One(c, cs)
 		},
 	})
-	for _, prop := range []string{"C01", "C03", "C06", "C15", "C19"} {
+	for _, prop := range []string{"C01", "C03", "C06", "C15", "C18", "C19"} {
 		prop := prop
 		fw.Register(fw.Part{
 			Prop: prop, Name: "accepted",
